@@ -100,6 +100,14 @@ class Transaction:
         # This is a critical check in production systems
         table_schema = self._resolve_table_schema()
         for data_file in files:
+            # A pre-built file is unreachable until the commit, exactly like one
+            # written by append_data(): without a marker a collection running
+            # while this transaction is open deletes it (it may well be older
+            # than the grace period) and the commit then references a missing
+            # file. append_data() has already registered its own file.
+            marker_name = data_file.file_path.rsplit("/", 1)[-1]
+            if f"{_INFLIGHT_PATH}/{marker_name}.inflight" not in self._inflight_markers:
+                self._register_inflight(data_file.file_path)
             if not self.file_manager.validate_file_exists(data_file.file_path):
                 raise FileNotFoundError(f"Data file does not exist: {data_file.file_path}")
             if table_schema is not None:
